@@ -522,11 +522,12 @@ Theorem C06_text_roundtrip_ext_partial : forall keys enc dec t, keys_ok keys = t
 Proof. exact ExtTextFree.text_roundtrip_ext_free. Qed.
 Print Assumptions C06_text_roundtrip_ext_partial.
 
-(* the full statement at the text level, for ALL trees of the extended language, is the proposition below; it is proved above for the
-   trees whose renderings contain no binder token (etok_wf); what is missing for the rest is a lexer theorem for the keywords for, some,
-   every (the till_in flag, set by the parser's mid-rule actions for the name that follows) and function (terminated by a look-ahead to
-   `(`): these four are outside C06_lex_unlex's printable token lists.  With such a theorem the statement would still need a reading of
-   `name in` as a variable binding after for / some / every / `,` (eabs reads it as an atom and the operator in) *)
+(* the full statement at the text level, for ALL trees of the extended language, was first written down as the proposition below (kept as
+   it was).  It is PROVED further down as C06_text_roundtrip_min_all / C06_text_roundtrip_full_all, with two changes that the
+   remark of the time already named: the lexer carries the flag policy for the binders (lex_b: till_in also behind the comma between two
+   iteration contexts, type_name behind the colon of a formal parameter) and `name in` where a binding is expected is read as a binding
+   (parse_text_all = lex_b, eabs_b, eparse_tokens; parse_text_ext below reads it as an atom and the operator in, so the proposition in
+   this literal form fails on every tree with a binder), and the variable of a binding must not be the name `item` (names_all) *)
 Definition C06_text_roundtrip_ext_statement : Prop :=
   forall keys enc dec (t : etree), keys_ok keys = true -> atoms_ok keys enc dec ->
   eflag_ok false (erender_min t) = true ->
@@ -534,3 +535,113 @@ Definition C06_text_roundtrip_ext_statement : Prop :=
                                  | XPar n None => (n <? N.of_nat (List.length keys))%N
                                  | XPar n (Some ty) => (n <? N.of_nat (List.length keys))%N && (ty <? 6)%N | _ => true end) (erender_min t) = true ->
   parse_text_ext keys dec (unlex (econc_all keys enc (erender_min t))) = Some t.
+
+(* ================================================================== TEXT LEVEL FOR ALL TREES: binders and function definitions (prover-C06-binders) *)
+From DV Require Import C06.LexBind C06.ExtLexAll.
+From DV Require C06.LexBindProofs C06.ExtTextAll C06.ExtTrack C06.ExtTextTrees.
+
+(* the lexer model with the binder policy (C06.LexBind.lex_b: next_token iterated; the flags set between two tokens by policy_b from a
+   pushdown over the tokens delivered so far: open brackets, open headers for / some / every .. return / satisfies, the parameter list
+   of a function definition; a comma sets till_in when the innermost open thing is a header, a colon sets type_name when it is a
+   parameter list; between after BETWEEN and type_name after OF as before) reads back every token list that is printable in the
+   extended sense (printable_b = printable of C06_lex_unlex, plus: for / some / every; `function` directly followed by `(`; while
+   till_in is set, a single word that is no keyword and not `item`, followed by `in` -- it need not be a scope key) *)
+Theorem C06_lex_b_unlex : forall keys ts, keys_ok keys = true -> printable_b keys tstate0 flags0 ts = true -> lex_b keys (unlex ts) = Some ts.
+Proof. exact LexBindProofs.lex_b_unlex. Qed.
+Print Assumptions C06_lex_b_unlex.
+
+(* ... with any layout of the modelled grammar before the first token and, behind one space, after every token, except (gaps_ok_b) behind
+   `function` and behind the variable of a binding: there only white space characters that are no name characters (a comment between
+   `function` and `(` makes the keyword a name, a comment or U+180E / U+FEFF between the variable and `in` becomes part of the variable) *)
+Theorem C06_lex_b_unlex_layout : forall keys ts lead gaps, keys_ok keys = true ->
+  printable_b keys tstate0 flags0 ts = true -> gaps_ok_b tstate0 flags0 ts gaps = true ->
+  forallb piece_ok lead = true -> forallb gap_ok gaps = true ->
+  lex_b keys (render_layout lead ++ unlex_lay gaps ts) = Some ts.
+Proof. exact LexBindProofs.lex_b_unlex_layout. Qed.
+Print Assumptions C06_lex_b_unlex_layout.
+
+(* the pushdown on the renderings: for EVERY tree, in both renderings, it expects a binding exactly in front of every binding (XBind), is
+   inside a parameter list exactly at the formal parameters, sets type_name behind the colon of a typed parameter and not behind the colon
+   of a key, and `function` is followed by `(` (etrack_ok) *)
+Theorem C06_track_renderings : forall t, etrack_ok tstate0 (erender_min t) = true /\ etrack_ok tstate0 (erender_full t) = true.
+Proof. exact (fun t => conj (ExtTrack.etrack_min t) (ExtTrack.etrack_full t)). Qed.
+Print Assumptions C06_track_renderings.
+
+(* whatever the extended Spec parser makes of a token list it makes of its text, for ALL token lists (binder tokens included) that meet
+   etrack_ok, are outside the known finding between-lower-bound-and (eflag_ok) and whose names are in range (names_all: type numbers < 6;
+   member names, keys, variables and parameter names positions in keys; the variable of a binding not `item`) *)
+Theorem C06_parse_text_unlex_all : forall keys enc dec ts, keys_ok keys = true -> atoms_ok keys enc dec ->
+  eflag_ok false ts = true -> forallb (names_all keys) ts = true -> etrack_ok tstate0 ts = true ->
+  parse_text_all keys dec (unlex (econc_all keys enc ts)) = eparse_tokens ts.
+Proof. intros keys enc dec ts Hk Ha. exact (ExtTextAll.parse_text_unlex_all keys enc dec Hk Ha ts). Qed.
+Print Assumptions C06_parse_text_unlex_all.
+
+(* THE ROUND TRIP FROM TEXT FOR ALL TREES of the extended language (for, some, every, function included; no bound): the text of the minimal
+   and of the full rendering parses back to the tree.  Side conditions: the scope keys are single words, pairwise different, no keywords, no
+   built-in type names (keys_ok); the dictionary writes every atom as a literal or a scope key and reads it back (atoms_ok); the rendering is
+   outside the known finding between-lower-bound-and (eflag_ok); names_all *)
+Theorem C06_text_roundtrip_min_all : forall keys enc dec t, keys_ok keys = true -> atoms_ok keys enc dec ->
+  eflag_ok false (erender_min t) = true -> forallb (names_all keys) (erender_min t) = true ->
+  parse_text_all keys dec (unlex (econc_all keys enc (erender_min t))) = Some t.
+Proof. intros keys enc dec t Hk Ha. exact (ExtTextTrees.text_roundtrip_min_all keys enc dec Hk Ha t). Qed.
+Print Assumptions C06_text_roundtrip_min_all.
+
+Theorem C06_text_roundtrip_full_all : forall keys enc dec t, keys_ok keys = true -> atoms_ok keys enc dec ->
+  eflag_ok false (erender_full t) = true -> forallb (names_all keys) (erender_full t) = true ->
+  parse_text_all keys dec (unlex (econc_all keys enc (erender_full t))) = Some t.
+Proof. intros keys enc dec t Hk Ha. exact (ExtTextTrees.text_roundtrip_full_all keys enc dec Hk Ha t). Qed.
+Print Assumptions C06_text_roundtrip_full_all.
+
+(* ... under every layout of C06_lex_b_unlex_layout *)
+Theorem C06_text_roundtrip_min_layout_all : forall keys enc dec t lead gaps, keys_ok keys = true -> atoms_ok keys enc dec ->
+  eflag_ok false (erender_min t) = true -> forallb (names_all keys) (erender_min t) = true ->
+  gaps_ok_b tstate0 flags0 (econc_all keys enc (erender_min t)) gaps = true -> forallb piece_ok lead = true -> forallb gap_ok gaps = true ->
+  parse_text_all keys dec (render_layout lead ++ unlex_lay gaps (econc_all keys enc (erender_min t))) = Some t.
+Proof. intros keys enc dec t lead gaps Hk Ha. exact (ExtTextTrees.text_roundtrip_min_layout_all keys enc dec Hk Ha t lead gaps). Qed.
+Print Assumptions C06_text_roundtrip_min_layout_all.
+
+Theorem C06_text_roundtrip_full_layout_all : forall keys enc dec t lead gaps, keys_ok keys = true -> atoms_ok keys enc dec ->
+  eflag_ok false (erender_full t) = true -> forallb (names_all keys) (erender_full t) = true ->
+  gaps_ok_b tstate0 flags0 (econc_all keys enc (erender_full t)) gaps = true -> forallb piece_ok lead = true -> forallb gap_ok gaps = true ->
+  parse_text_all keys dec (render_layout lead ++ unlex_lay gaps (econc_all keys enc (erender_full t))) = Some t.
+Proof. intros keys enc dec t lead gaps Hk Ha. exact (ExtTextTrees.text_roundtrip_full_layout_all keys enc dec Hk Ha t lead gaps). Qed.
+Print Assumptions C06_text_roundtrip_full_layout_all.
+
+(* a needed pair removed, at the text level, binders included (the token list without the pair is no rendering: etrack_ok is a hypothesis,
+   evaluated by the check on every such list it sends to the real parser) *)
+Theorem C06_text_needed_paren_all : forall keys enc dec t k, keys_ok keys = true -> atoms_ok keys enc dec ->
+  eflag_ok false (edrop_paren k (erender_min t)) = true -> forallb (names_all keys) (edrop_paren k (erender_min t)) = true ->
+  etrack_ok tstate0 (edrop_paren k (erender_min t)) = true -> (k < ecount_lp (erender_min t))%nat ->
+  parse_text_all keys dec (unlex (econc_all keys enc (edrop_paren k (erender_min t)))) <> Some t.
+Proof. intros keys enc dec t k Hk Ha. exact (ExtTextTrees.text_needed_paren_all keys enc dec Hk Ha t k). Qed.
+Print Assumptions C06_text_needed_paren_all.
+
+(* not vacuous: a for inside an if inside a function definition meets the side conditions; its text is
+   `function ( a : number , b ) if a then for c in b , d in 11 .. a return c + d else b ` and both renderings parse back from text *)
+Example C06_text_nonvacuous_all :
+  keys_ok keys_ex = true /\ eflag_ok false (erender_min ExtTextTrees.etree_all_ex) = true /\
+  forallb (names_all keys_ex) (erender_min ExtTextTrees.etree_all_ex) = true /\
+  unlex (econc_all keys_ex enc_ex (erender_min ExtTextTrees.etree_all_ex)) =
+    [102; 117; 110; 99; 116; 105; 111; 110; 32; 40; 32; 97; 32; 58; 32; 110; 117; 109; 98; 101; 114; 32; 44; 32; 98; 32; 41; 32; 105; 102; 32; 97; 32;
+     116; 104; 101; 110; 32; 102; 111; 114; 32; 99; 32; 105; 110; 32; 98; 32; 44; 32; 100; 32; 105; 110; 32; 49; 49; 32; 46; 46; 32; 97; 32;
+     114; 101; 116; 117; 114; 110; 32; 99; 32; 43; 32; 100; 32; 101; 108; 115; 101; 32; 98; 32]%N /\
+  parse_text_all keys_ex dec_ex (unlex (econc_all keys_ex enc_ex (erender_min ExtTextTrees.etree_all_ex))) = Some ExtTextTrees.etree_all_ex /\
+  parse_text_all keys_ex dec_ex (unlex (econc_all keys_ex enc_ex (erender_full ExtTextTrees.etree_all_ex))) = Some ExtTextTrees.etree_all_ex.
+Proof. exact ExtTextTrees.text_example_all. Qed.
+Print Assumptions C06_text_nonvacuous_all.
+
+(* the side condition on the variable is needed (known finding item-iteration-variable): with `item` among the scope keys the tree
+   for item in b return (c in d) is read back by the extended Spec parser from its tokens, but its text `for item in b return c in d ` is
+   lexed as for, item, in, the NAME `b return c`, in, d (consume_name returns `item` before it looks at till_in, the flag stays set and the
+   next name with an `in` among its parts is cut there) and has no tree; the real parser reports a syntax error *)
+Theorem C06_text_item_variable_refuted :
+  keys_ok ExtTextTrees.keys_item = true /\ eflag_ok false (erender_min ExtTextTrees.etree_item) = true /\
+  forallb (names_all ExtTextTrees.keys_item) (erender_min ExtTextTrees.etree_item) = false /\
+  eparse_tokens (erender_min ExtTextTrees.etree_item) = Some ExtTextTrees.etree_item /\
+  unlex (econc_all ExtTextTrees.keys_item ExtTextTrees.enc_item (erender_min ExtTextTrees.etree_item)) =
+    [102; 111; 114; 32; 105; 116; 101; 109; 32; 105; 110; 32; 98; 32; 114; 101; 116; 117; 114; 110; 32; 99; 32; 105; 110; 32; 100; 32]%N /\
+  lex_b ExtTextTrees.keys_item (unlex (econc_all ExtTextTrees.keys_item ExtTextTrees.enc_item (erender_min ExtTextTrees.etree_item))) =
+    Some [LKw KFor; LName NM.str_item; LKw KIn; LName [98; 32; 114; 101; 116; 117; 114; 110; 32; 99]; LKw KIn; LName [100]]%N /\
+  parse_text_all ExtTextTrees.keys_item ExtTextTrees.dec_item (unlex (econc_all ExtTextTrees.keys_item ExtTextTrees.enc_item (erender_min ExtTextTrees.etree_item))) = None.
+Proof. exact ExtTextTrees.text_item_witness. Qed.
+Print Assumptions C06_text_item_variable_refuted.
